@@ -26,6 +26,7 @@ XR = z3.Datatype("XR"); XR.declare("mk_xr", ("x_nan", z3.BoolSort()), ("x_inf", 
 Act = z3.Datatype("Act"); Act.declare("mk_act", ("a_term", Ref), ("a_degree", XR), ("a_impl", Ref)); Act = Act.create()
 cls_of = z3.Function("cls_of", Ref, z3.IntSort())
 
+BATCH = z3.Int("BATCH")       # ghost: number of rows of a data value (1 = plain scalar processing); always >= 1
 SeqRef, SeqAct, SeqStr, SeqXR = z3.SeqSort(Ref), z3.SeqSort(Act), z3.SeqSort(Str), z3.SeqSort(XR)
 
 
@@ -144,7 +145,9 @@ class HPath(Path):
 
 
 class LoopSpec:
-    def __init__(s, inv, elem=None, facts=None, havoc_heap=None, name=None, modifies=None):
+    def __init__(s, inv, elem=None, facts=None, havoc_heap=None, name=None, modifies=None, ghost=None):
+        s.ghost = ghost              # (ex, path, k, seq) -> [z3 Bool]: ghost assignments at the end of iteration k (definitions of
+                                     # history functions at index k / k+1 only; the invariant at k may mention them below that only)
         s.modifies = modifies        # heap field keys the loop may change; every other havocked field is framed automatically
         s.inv = inv                  # (ex, path, k, seq) -> z3 Bool ; k = number of completed iterations
         s.facts = facts              # (ex, path, k, seq) -> [z3 Bool] ground facts (wf of element k, ghost unfoldings)
@@ -178,6 +181,7 @@ class HeapExec(NumExec):
         s.call_log = []
         s.witness = {}                     # skolem witnesses of the goal (DESIGN 5.6): contracts instantiate their postconditions at these
         s.modify_calls = []
+        s.trigger_calls = []
         s.cur_owner = None
 
     # ------------------------------------------------------------------ obligations
@@ -431,6 +435,11 @@ class HeapExec(NumExec):
             return z3.Or(*[s.unwrap("str", item) == s.unwrap("str", c) for c in coll])
         raise Unsupported(f"`in` at line {e.lineno}")
 
+    def ev_NamedExpr(s, p, e):
+        v = s.ev(p, e.value)
+        p.env[e.target.id] = v
+        return v
+
     def ev_Set(s, p, e):
         return {s.ev(p, x) for x in e.elts}
 
@@ -567,6 +576,7 @@ class HeapExec(NumExec):
         sub.cur_owner = owner
         sub.witness = s.witness
         sub.modify_calls = s.modify_calls
+        sub.trigger_calls = s.trigger_calls
         sub.fresh_n = s.fresh_n + 1000 * (s.depth + 1)
         names = [a.arg for a in fn.args.args]
         env = {names[0]: recv}
@@ -617,6 +627,14 @@ class HeapExec(NumExec):
 
     def seq_method(s, p, recv, meth, args, node):
         raise Unsupported(f"list method .{meth} used as an expression at line {node.lineno}")
+
+    def np_call(s, p, name, e):
+        if name == "size" and len(e.args) == 1:
+            v = s.ev(p, e.args[0])
+            if isinstance(v, (Num, Bool)) and v.data:
+                return Num(X(xr.F, xr.I0, z3.ToReal(BATCH)), False, True, True)      # number of rows of the batch being processed
+            return 1
+        return super().np_call(p, name, e)
 
     # ------------------------------------------------------------------ statements
     def stmt(s, p, n):
@@ -773,9 +791,10 @@ class HeapExec(NumExec):
                     out.add(n.func.value.id)
         return out
 
-    def written_fields(s, body):
+    def written_fields(s, body, _seen=None):
         """heap field keys possibly written by a loop body: direct stores/list mutations + modifies of called contracts"""
         out = set()
+        _seen = set() if _seen is None else _seen
         for st in body:
             for n in ast.walk(st):
                 tg = []
@@ -798,9 +817,10 @@ class HeapExec(NumExec):
                         if q.endswith("." + a):
                             out |= set(c.modifies)
                     for q in s.inline:
-                        if q.endswith("." + a):
+                        if q.endswith("." + a) and q not in _seen:
+                            _seen.add(q)
                             m = s.src.module_of_class(q.split(".")[0])
-                            out |= s.written_fields(s.src.func(m, q).body)
+                            out |= s.written_fields(s.src.func(m, q).body, _seen)
         return out
 
     setter_effects = {}
@@ -829,7 +849,15 @@ class HeapExec(NumExec):
             return ActV(z3.FreshConst(Act, hint))
         if isinstance(v, StrV):
             return StrV(z3.FreshConst(Str, hint))
-        if v is None or isinstance(v, (int, float, str, bool, tuple)):
+        if isinstance(v, bool):
+            return Bool(z3.FreshConst(z3.BoolSort(), hint), False, True)
+        if isinstance(v, int):
+            i = z3.Int(f"{hint}!{s.fresh_n}i"); s.fresh_n += 1
+            return Num(X(xr.F, xr.I0, z3.ToReal(i)), False, True, True)
+        if isinstance(v, float):
+            x, c = xr.sym(f"{hint}!{s.fresh_n}"); s.fresh_n += 1
+            return Num(x, False, True, False)
+        if v is None or isinstance(v, (str, tuple)):
             return ("havoc", hint)      # type changes across iterations are not supported: any later use fails as Unsupported
         raise Unsupported(f"havoc of {type(v).__name__}")
 
@@ -856,7 +884,7 @@ class HeapExec(NumExec):
         if spec.modifies is not None:
             user_inv, ent, framed = spec.inv, s.entry[lo], sorted(fields - set(spec.modifies))
             spec = LoopSpec(lambda ex, q, k_, sq: z3.And(user_inv(ex, q, k_, sq), *[q.heap[f] == ent.heap[f] for f in framed]),
-                            facts=spec.facts, havoc_heap=spec.havoc_heap, name=spec.name)
+                            facts=spec.facts, havoc_heap=spec.havoc_heap, name=spec.name, ghost=spec.ghost)
         k0 = z3.IntVal(0)
         s.oblige(f"{label}/inv.init", p, z3.And(*((spec.facts(s, p, k0, seq) if spec.facts else []) + [True])) if False else spec.inv(s, p, k0, seq),
                  {"facts": spec.facts(s, p, k0, seq) if spec.facts else []})
@@ -874,6 +902,8 @@ class HeapExec(NumExec):
         outs, breaks = [], []
         for q, sig in s.block([h], n.body):
             if sig is None or sig[0] == "continue":
+                if spec.ghost:
+                    q.pc += spec.ghost(s, q, k, seq)
                 s.oblige(f"{label}/inv.preserved", q, spec.inv(s, q, k + 1, seq), {"facts": spec.facts(s, q, k + 1, seq) if spec.facts else []})
             elif sig[0] == "break":
                 breaks.append((q, None))      # leaves the loop from iteration k: execution continues after the loop in this state
